@@ -19,7 +19,7 @@ Oracle: ref/ihex.py (reader + 'merged regions' written from the Intel HEX specif
 import os
 import itertools
 from symx.harness import Harness
-from symx import core, seq
+from symx import core, seq, hexlemma
 from symx.core import sym_and, sym_or, sym_not, ite
 
 PROPERTY = "C18"
@@ -42,7 +42,7 @@ ASSUMPTIONS = ["Intel HEX format as in Intel's Hexadecimal Object File Format Sp
                "a file object is modelled by a line sink/source keeping the written text (print -> write)",
                "a HexFile without a start address is one with start_address == 0 (HexFile.__init__)"]
 SHIMS_USED = ["isinstance", "bytes", "int", "struct", "hex", "format", "range"]
-JOB_TIMEOUT = {"quick": 240, "thorough": 1500}
+JOB_TIMEOUT = {"quick": 900, "thorough": 3000}   # generous: the machine is shared
 M32 = 1 << 32
 
 
@@ -81,23 +81,6 @@ class Source:
 
     def __iter__(self):
         return iter(self._lines)
-
-
-def canon_bytes(digits, values):
-    """Proof engineering for the reference reader (see ref.ihex.parse_record): the shims remember for
-    each symbolic hex digit which byte it was made from; offer that byte as an equal, simpler term.
-    The equality itself is NOT trusted: it is returned as a lemma and proved by the solver."""
-    out, lem = [], []
-    for k, val in enumerate(values):
-        th = getattr(digits[2 * k], "tag", None)
-        tl = getattr(digits[2 * k + 1], "tag", None)
-        if type(th) is tuple and type(tl) is tuple and len(th) == 4 and len(tl) == 4 \
-                and th[2] is tl[2] and th[3] == 1 and tl[3] == 0:
-            out.append(th[2])
-            lem.append(val == th[2])
-        else:
-            out.append(val)
-    return out, (sym_and(*lem) if lem else True)
 
 
 def regions_eq(xs, ys):
@@ -176,7 +159,7 @@ class RoundTrip(Harness):
         if v["stage"] == "save":
             res["save-succeeds"] = False
             return res
-        dec = ihex.decode(v["lines"], canon_bytes)
+        dec = ihex.decode(v["lines"], hexlemma.canon)
         res["reader-digit-lemma"] = dec["lemmas"]
         res["records-wellformed"] = dec["records_ok"]
         res["file-structure"] = dec["structure_ok"]
